@@ -27,6 +27,7 @@ def _perms():
 
 
 SIGNED_PERMS = _perms()  # 48, rows
+SCALE = 96   # bound on every coordinate magnitude met while locating a probe (spec: a point beyond it is "near")
 PYTH = [[3, -4, 0], [4, 3, 0], [0, 0, 5]]
 IDENT = [[1, 0, 0], [0, 1, 0], [0, 0, 1]]
 
@@ -574,10 +575,10 @@ def finish_scene(g, sid, seed, family, units, grid_n, margin=2):
     ext = outer_extent(units[0]["boundary"]) + 1
     step = max(1, -(-2 * ext // (grid_n - 1)))
     lo = [-step * (grid_n - 1) // 2 + g.ri(-(step // 2), step // 2) for _ in range(3)]
-    scale = 64   # bound on every coordinate magnitude met while locating a probe
-    assert all(max(abs(x), abs(x + step * (grid_n - 1))) + 20 < scale for x in lo), (lo, step)
+    scale = SCALE
+    assert all(max(abs(x), abs(x + step * (grid_n - 1))) + 1 < scale // 2 for x in lo), (lo, step)
     return {"id": sid, "seed": seed, "family": family,
-            "tolrel": 8, "length": 1, "margin": margin, "tolinv": 10 ** 8 // (margin * scale),
+            "tolrel": 8, "length": 1, "margin": margin, "scale": scale, "tolinv": 10 ** 8 // (margin * scale),
             "grid": {"lo": lo, "step": step, "n": grid_n, "off": [int(g.rng.random() < 0.85) for _ in range(3)]},
             "units": units, "kinds": g.kinds}
 
@@ -705,7 +706,7 @@ def perturb(scene, seed):
     sc["perturbed"] = n[0]
     sc["family"] = sc["family"] + "+eps"
     sc["margin"] = 8
-    sc["tolinv"] = 10 ** 8 // (8 * 64)
+    sc["tolinv"] = 10 ** 8 // (8 * SCALE)
     sc["seed"] = seed
     return sc
 
